@@ -510,6 +510,14 @@ def _observe(obs, case, M, cut=None):
     list(it2)
     merged = r1.merge_states([it1.agg_state, it2.agg_state])
     return r1.get_result(merged)
+  if obs == 'pickled':
+    # The pipeline object is shipped to a worker (cloudpickle round trip) before
+    # it is made and run; the result must not depend on that.
+    from ml_metrics._src.chainables import lazy_fns
+    shipped = lazy_fns.pickler.loads(lazy_fns.pickler.dumps(M.build(case)))
+    it = shipped.make().iterate(stream)
+    list(it)
+    return it.agg_result
   if obs == 'no_slicers':
     return M.build(case, with_slicers=False).make()(input_iterator=stream)
   if obs == 'fewer_slicers':
@@ -600,7 +608,7 @@ def check_case(ctx, case, want_override=None, tag=None):
   has_shipped = any(a['fn'] in SHIPPED for a in case['aggs'])
   rng = random.Random(json.dumps(case, sort_keys=True))
   observations = [('call', None), ('iterate', None), ('stopiter', None),
-                  ('datasource', None), ('update_state', None)]
+                  ('datasource', None), ('update_state', None), ('pickled', None)]
   if nb == 1:
     observations.append(('single_inputs', None))
   if has_shipped:
